@@ -383,7 +383,7 @@ def replay_dir(pid):
 
 
 def found_dir(pid):
-    d = os.path.join(env.VERIF, "found", pid)
+    d = os.path.join(env.OUT, "found", pid)
     os.makedirs(d, exist_ok=True)
     return d
 
@@ -418,8 +418,8 @@ def write_evidence(mod, tier, seed_value, coverage, violations, wall, extra_assu
         "wall_s": round(wall, 2),
         "violations": violations,
     }
-    os.makedirs(os.path.join(env.VERIF, "evidence"), exist_ok=True)
-    path = os.path.join(env.VERIF, "evidence", "%s.json" % mod.PID)
+    os.makedirs(os.path.join(env.OUT, "evidence"), exist_ok=True)
+    path = os.path.join(env.OUT, "evidence", "%s.json" % mod.PID)
     tmp = path + ".tmp"
     with open(tmp, "w") as f:
         json.dump(ev, f, indent=1, sort_keys=True, default=repr)
@@ -510,7 +510,7 @@ def main_check(modname, tier, replay=None, survey=False):
                 f, indent=1, sort_keys=True, default=repr,
             )
             f.write("\n")
-        violations.append((key, os.path.relpath(path, env.VERIF), b_["count"], dict(b_["disc"], modes=b_["modes"]), tags))
+        violations.append((key, os.path.relpath(path, env.OUT), b_["count"], dict(b_["disc"], modes=b_["modes"]), tags))
 
     cov = {
         "evaluations": coll.evaluations,
